@@ -11,6 +11,7 @@ impl -> spec: every run is an event judged by Trace_Cli.tla, which re-computes s
 """
 import json
 import os
+import re
 import subprocess
 
 import common as C
@@ -65,6 +66,49 @@ def _cases(path):
     return cases
 
 
+def _args_pass(out, tier, wd, xq, xe):
+    """command lines: CliArgs.tla (a scanner over option tokens) -> every command line up to MaxLen tokens for both
+    tools through the real binaries -> Trace_CliArgs.tla"""
+    dump = os.path.join(wd, "args.replay")
+    mc = C.run_tlc("MC_CliArgs", "MC_CliArgs_%s.cfg" % tier, "argsmc", to_file=dump, workers=4, timeout=1500,
+                   keep_tags=["REPLAY"])
+    C.tlc_must_pass(mc, "MC_CliArgs")
+    out.add_tlc(mc)
+    trace = os.path.join(wd, "args.trace")
+    so = C.run_harness(["cli-args", "--in", dump, "--out", trace, "--xq", xq, "--xe", xe, "--jobs", "8",
+                        "--docfile", os.path.join(wd, "doc.xml")], timeout=3000)
+    st = json.loads(so.strip().splitlines()[-1])
+    n = C.count_lines(trace)
+    if n == 0 or n != st["runs"]:
+        raise C.ToolError("no command-line runs")
+    res = C.run_tlc("Trace_CliArgs", "Trace_CliArgs.cfg", "argstv", env={"TRACE": trace}, workers=1, deque=True,
+                    timeout=1500, xmx="4g")
+    C.tlc_must_pass(res, "Trace_CliArgs")
+    if res.distinct != n + 1:
+        raise C.ToolError("trace validation visited %d states for %d events" % (res.distinct, n))
+    events = C.read_ndjson(trace)
+    for t, v in res.lines:
+        if t == "TRUNCATED":
+            raise C.ToolError("trace validation consumed only part of the trace")
+        if t == "VERDICT" and v.get("verdict") != "ok":
+            out.verdict(v, events[v["i"] - 1])
+    outcomes = {}
+    for line in open(dump):
+        if line.startswith('<<"REPLAY"'):
+            c = json.loads(json.loads(re.match(r'<<"REPLAY", (.*)>>\s*$', line).group(1)))
+            key = c["tool"] + ":" + c["outcome"]
+            outcomes[key] = outcomes.get(key, 0) + 1
+    for k in ("xq:run", "xq:refuse", "xe:run", "xe:refuse"):
+        if not outcomes.get(k):
+            raise C.ToolError("the command-line model never prescribes %s (vacuous)" % k)
+    out.extra["command_lines"] = outcomes
+    out.traces_extra = n
+    for e in events:
+        out.nontriv(["args", e["tool"], " ".join(e["toks"])])
+    os.unlink(trace)
+    os.unlink(dump)
+
+
 def run(prop, tier, only=None):
     out = C.Outcome(prop, tier)
     if only is not None:
@@ -86,8 +130,10 @@ def run(prop, tier, only=None):
                            timeout=3000)
         st = json.loads(so.strip().splitlines()[-1])
         events = _validate(out, trace, "clitv")
-        out.traces = len(events)
-        out.evaluations = st["runs"]
+        if only is None:
+            _args_pass(out, tier, wd, xq, xe)
+        out.traces = len(events) + getattr(out, "traces_extra", 0)
+        out.evaluations = st["runs"] + getattr(out, "traces_extra", 0)
         s = lambda a: "".join(chr(x) for x in a)
         cases = _cases(dump)
         for e in events:
@@ -115,7 +161,9 @@ def run(prop, tier, only=None):
             "xe's compact output with the library (merged view): a parser defect common to both sides is C01's business",
             "indented output: only exit status and well-formedness are judged (the pretty printer changes white space)",
             "xq node output is compared with the library's own Display of exactly the nodes the specification selects",
-            "--setns and file arguments are not exercised (stdin only)",
+            "command lines: every command line of up to %d scanner items (option with value, flag, file path, dangling or misplaced option word) for both tools (CliArgs.tla, MC_CliArgs.tla); the --setns forms "
+            "of the README (xmlns:<prefix>=<uri>, repeated, re-bound) and three malformed ones; a default-namespace "
+            "binding (xmlns=<uri>) is not exercised" % 3,
         ]
         return out.finish()
     finally:
@@ -125,4 +173,17 @@ def run(prop, tier, only=None):
 def replay(prop, path):
     v = json.load(open(path))
     case = v.get("case", v)
+    if "toks" in case:
+        # a command line of the CliArgs model: the whole (small) pass is repeated
+        out = C.Outcome(prop, "quick")
+        out.no_evidence = True
+        wd = C.workdir("cliargs")
+        try:
+            xq, xe = build_tools()
+            _args_pass(out, "quick", wd, xq, xe)
+            out.traces = out.evaluations = getattr(out, "traces_extra", 0)
+            out.rule = "replay: every command line of the quick bound"
+            return out.finish()
+        finally:
+            C.cleanup(wd)
     return run(prop, "quick", only=(case["di"], case["ei"], case["fi"]))
